@@ -1,11 +1,12 @@
 import SamlVerif.Driver.Proto
 import SamlVerif.Driver.SPStruct
 import SamlVerif.Driver.Codec
+import SamlVerif.Driver.Xmlenc
 
 open SamlVerif
 
 def allHandlers : List (String × Proto.P String) :=
-  Driver.SPStruct.handlers ++ Driver.Codec.handlers
+  Driver.SPStruct.handlers ++ Driver.Codec.handlers ++ Driver.XmlencD.handlers
 
 def answer (line : String) : String :=
   match (line.splitOn " ").filter (· ≠ "") with
